@@ -13,6 +13,50 @@ def single_op(op):
     return Module(funcs=[Func(ps, [r], [], body)], exports=[('f', 'func', 0)])
 
 
+CMP_FOLLOWERS = ('eqz', 'eqz2', 'brif', 'if', 'select', 'eqz_brif', 'eqz_if', 'set_eqz')
+
+
+def comparison_ops(floats):
+    """test / comparison instructions (result i32 from one or two equally typed operands)"""
+    out = []
+    for n in sorted(SIG):
+        ps, r = SIG[n]
+        if r != 'i32' or not ps or any(t != ps[0] for t in ps) or len(ps) > 2:
+            continue
+        suffix = n.split('.')[1]
+        if suffix.split('_')[0] not in ('eq', 'ne', 'lt', 'gt', 'le', 'ge', 'eqz'):
+            continue
+        if (ps[0][0] == 'f') == floats:
+            out.append(n)
+    return out
+
+
+def cmp_then(op, follower):
+    """a comparison immediately followed by the instruction(s) a translator is most likely to fuse it with"""
+    ps, r = SIG[op]
+    n = len(ps)
+    cmp = [('local.get', i) for i in range(n)] + [(op,)]
+    if follower == 'eqz':
+        body = cmp + [('i32.eqz',)]
+    elif follower == 'eqz2':
+        body = cmp + [('i32.eqz',), ('i32.eqz',)]
+    elif follower == 'brif':
+        body = [('block', I32, [('i32.const', 10)] + cmp + [('br_if', 0), ('drop',), ('i32.const', 20)])]
+    elif follower == 'eqz_brif':
+        body = [('block', I32, [('i32.const', 10)] + cmp + [('i32.eqz',), ('br_if', 0), ('drop',), ('i32.const', 20)])]
+    elif follower == 'if':
+        body = cmp + [('if', I32, [('i32.const', 1)], [('i32.const', 2)])]
+    elif follower == 'eqz_if':
+        body = cmp + [('i32.eqz',), ('if', I32, [('i32.const', 1)], [('i32.const', 2)])]
+    elif follower == 'select':
+        body = [('i32.const', 5), ('i32.const', 6)] + cmp + [('select',)]
+    elif follower == 'set_eqz':
+        body = cmp + [('local.tee', n), ('i32.eqz',), ('local.get', n), ('i32.const', 1), ('i32.shl',), ('i32.or',)]
+    else:
+        raise ValueError(follower)
+    return Module(funcs=[Func(ps, [I32], [I32], body)], exports=[('f', 'func', 0)])
+
+
 def _expr(rng, want, depth, params, ops):
     """random expression tree producing type `want`; leaves = params / constants"""
     if depth == 0 or rng.random() < 0.15:
@@ -399,6 +443,22 @@ def branch_matrix():
         f = Func(CF_PARAMS, [I64], locs, body + acc)
         f.local_groups = groups
         out.append(('locals_groups_%d' % gi, Module(imports=[HOST_H], funcs=[f], exports=[('f', 'func', 1)])))
+    # br_table carrying a value to targets that were entered at DIFFERENT operand-stack heights (extra operands between
+    # the nested blocks): every target has its own result slot; each exit level is marked by a host call
+    for t in (I32, I64, F32, F64):
+        pidx = {I32: 1, I64: 2, F32: 3, F64: 4}[t]
+        for ei, heights in enumerate(((0, 1, 2), (2, 0, 1), (1, 1, 0))):
+            for ti, (tbl, dflt) in enumerate((([0, 1, 2], 1), ([2, 0], 0), ([], 2), ([1, 1, 0, 2], 2))):
+                def extras(n):
+                    return [consts[I64], consts[F32]][:n]
+                def unwrap(n, lev):
+                    return [('local.set', 5)] + [('drop',)] * n + [('local.get', 5), ('i32.const', 100 + lev), ('call', 0), ('drop',)]
+                inner = extras(heights[2]) + [('local.get', pidx), ('local.get', 1), ('br_table', tbl, dflt), consts[t]]
+                mid = extras(heights[1]) + [('block', t, inner)] + unwrap(heights[1], 2)
+                outer = extras(heights[0]) + [('block', t, mid)] + unwrap(heights[0], 1)
+                body = [('block', t, outer), ('i32.const', 100), ('call', 0), ('drop',)]
+                f = Func(CF_PARAMS, [t], [t], body)
+                out.append(('brtable_val_%s_h%d_t%d' % (t, ei, ti), Module(imports=[HOST_H], funcs=[f], exports=[('f', 'func', 1)])))
     # a block / loop / if with a result whose end is reached only through dead code (left by br to the function
     # label from a deeper operand slot), followed by a consumer of the never-produced result slot
     for t in (I32, I64, F32, F64):
